@@ -167,7 +167,9 @@ def main():
         keep = "/tmp/selftest/replays-keep"
         sh(f"rm -rf {keep}; mkdir -p {keep}")
         saved = []
+        want = sys.argv[2:]
         for (mid, prop, f, old, new, what) in M:
+            if want and not any(mid.startswith(w) for w in want): continue
             reset()
             if apply_edits(repo, [(f, old, new)] + M_EXTRA.get(mid, [])):
                 continue
